@@ -3,7 +3,8 @@ translate.  Each is pinned to the normalised-AST hash of its function (PINS): wh
 code changes the term is void and the translator fails closed.  Sub-terms are produced by the
 automatic translator wherever the code calls a translatable function."""
 import gen_maskflow_c12 as G
-from gen_maskflow_c12 import (Img, MaskE, FalseC, Const, Pw, Loc, Glob, Erode, ErodeP, Select, MConv, Not, Gather, And)
+from gen_maskflow_c12 import (Img, MaskE, FalseC, Const, Pw, Loc, LocS, Glob, Erode, ErodeP, ErodeS, Select, MConv, Not,
+                               Gather, And)
 
 # sha256[:16] of the normalised AST of the function as of the validated tree (ast_hash)
 PINS = {}    # filled by harness/props/c12.py (kept there so that the check module shows them)
@@ -131,29 +132,29 @@ def t_convex_hull_transform(M):
     return Select(Const("zeros"), Glob("len_is_0", Gm), body)           # if len(unmasked_pixels) == 0: return zeros
 
 
-RSYM = 987654          # stands for the symbolic radius `r` of the structure (printed as `r` by Emitter.coq_param)
+SSYM = 987654          # stands for the symbolic structure index `s` (printed as `s`)
 
 
-def _regmax_ties(M, repaired=True, r=1):
-    # result = ones; result[~mask] = False (the repair 4e442e0);  result &= AND over the structure's offsets (centre
-    # excluded) of the shifted zero-padded mask = punctured erosion;  result[...][image < shifted image] = False reads
-    # the 8 neighbours (default 3x3 structure)
-    # a (2r+1)x(2r+1) structure reads / erodes within radius r
-    t = Select(Not(Loc(r, "has_greater_neighbour", Img)), ErodeP(r, MaskE), FalseC)
+def _regmax_ties(M, repaired=True, s=0):
+    # result = ones; result[~mask] = False (the repair 4e442e0);  for every offset d of the structure other than the
+    # centre: result &= (zero-padded) mask shifted by d  -> punctured erosion of the mask by the structure;
+    # result[p] = False where image[p] < image[p + d]  -> reads the image at p and at p + d, d in the structure.
+    # The structure is an ABSTRACT offset set (full squares, the 4-connected cross, anything).
+    t = Select(Not(LocS(s, "has_greater_structure_neighbour", Img)), ErodeS(s, MaskE), FalseC)
     return And(MaskE, t) if repaired else t
 
 
 def t_regional_maximum_ties(M): return _regmax_ties(M)
 
 
-def _regmax_default(M, repaired, r=1):
-    T = _regmax_ties(M, repaired, r)                         # result = regional_maximum(image, mask, structure, True)
+def _regmax_default(M, repaired, s=0):
+    T = _regmax_ties(M, repaired, s)                      # result = regional_maximum(image, mask, structure, True)
     picked = Glob("one_pixel_per_component(edt,label,rank_order,maximum_position)", T)
     return Select(picked, Glob("any", T), T)              # if not np.any(result): return result
 
 
 def t_regional_maximum_default(M): return _regmax_default(M, True)
-def t_regional_maximum_param(M): return _regmax_default(M, True, RSYM)
+def t_regional_maximum_param(M): return _regmax_default(M, True, SSYM)
 def t_regional_maximum_unmasked_ties(M): return _regmax_default(M, False)
 
 
@@ -175,14 +176,13 @@ def t_skeletonize(M):
     return Select(Pw("astype", core), MaskE, Img)         # result[~mask] = image[~mask]
 
 
-HAND = {"openlines": t_openlines, "circular_hough": t_circular_hough, "regional_maximum": t_regional_maximum_default,
-        "convex_hull_transform": t_convex_hull_transform}
+HAND = {"regional_maximum": t_regional_maximum_default}
 # pre-repair shapes that the checker must REJECT (stated as Examples `accepts … = false`)
 REJECTED = {"median_filter_unmasked_minmax": ("median_filter", t_median_filter_asis),
             "regional_maximum_unmasked_ties": ("regional_maximum", t_regional_maximum_unmasked_ties)}
 # further accepted configurations of listed functions (extra Examples)
 EXTRA = {"regional_maximum_ties_are_ok": ("regional_maximum", t_regional_maximum_ties)}
 # other functions whose code the hand terms rely on (pinned too)
-# terms with a symbolic radius: `forall r, accepts (prog_<name> r) = true`
-PARAM = {"regional_maximum_at": ("regional_maximum", t_regional_maximum_param)}
+# terms with a symbolic structure: `forall s, accepts (prog_<name> s) = true`
+PARAM = {"regional_maximum_struct": ("regional_maximum", t_regional_maximum_param)}
 ALSO_PINNED = {}      # openlines' term takes opening/grey_erosion/grey_dilation from the translator, not from a pin
